@@ -1,6 +1,8 @@
 import SdcModel.UdpRepeat
 import SdcModel.Proofs.UdpRepeat
 import SdcModel.Generated.UdpParams
+import SdcModel.UdpSendLoop
+import SdcModel.Proofs.UdpSendLoop
 /-!
 # C15 — discovery datagrams are retransmitted within the SOAP-over-UDP time envelope
 Property theorems only. Model: `SdcModel/UdpRepeat.lean`; parameter sets: `Generated/UdpParams.lean`
@@ -91,5 +93,73 @@ theorem dispatched_then_known (maxlen : Nat) (id : String) (known : List String)
 example : schedule Generated.multicast 17 120 = [17, 137, 377, 857, 1357] := by decide
 
 example : gap (schedule Generated.multicast 17 120) 3 = some 500 := by decide
+
+/-! ### the transmissions follow the schedule (send loop, `UdpSendLoop.lean`)
+
+The theorems above are about the `send_time`s put on the queue. The send loop turns them into transmissions; for every set
+of `add_outbound_message` calls at any times, with any draws and parameter sets, any time of `schedule_stop` and any number
+of loop iterations: -/
+open Sdc.UdpSendLoop
+
+/-- the loop's two sleeps, regenerated from `SEND_LOOP_BUSY_SLEEP` / `SEND_LOOP_IDLE_SLEEP` -/
+theorem generated_loop_cfg_ok : Generated.loopCfg.busy ≤ Generated.loopCfg.idle ∧ 0 < Generated.loopCfg.busy := by decide
+
+/-- the queue is ordered by the send time first (regenerated from the compared fields of `_EnqueuedMessage`) -/
+theorem generated_queue_key : Generated.queueKey = ["send_time", "repeat"] := by decide
+
+/-- no datagram leaves before its scheduled time - not even when the node is being stopped - and none later than one
+    (idle) sleep of the loop after it -/
+theorem transmissions_on_time (c : Cfg) (hc : c.busy ≤ c.idle) (hi : 0 < c.idle) (adds : List Add) (quitAt n : Nat) :
+    ∀ x ∈ (run c n (start adds quitAt)).1.out, x.2.sendTime ≤ x.1 ∧ x.1 < x.2.sendTime + c.idle :=
+  (run_inv hc n (start_inv hi adds quitAt)).outOk
+
+/-- every entry of every accepted call (made before the stop) is transmitted exactly as often as it was enqueued, at the
+    latest one idle sleep after its time: once the clock is there, it is among the transmissions and nowhere else -/
+theorem transmitted_once_by_deadline (c : Cfg) (hc : c.busy ≤ c.idle) (hi : 0 < c.idle) (adds : List Add) (quitAt n : Nat)
+    (e : Entry) (hd : e.sendTime + c.idle ≤ (run c n (start adds quitAt)).1.now) :
+    ((run c n (start adds quitAt)).1.out.map (·.2)).count e = (future quitAt adds).count e := by
+  have hinv := run_inv hc n (start_inv hi adds quitAt)
+  have hperm := (run_total (c := c) n (start adds quitAt)).trans (total_start adds quitAt)
+  have hqa : (run c n (start adds quitAt)).1.quitAt = quitAt := by rw [run_quitAt]; rfl
+  have hw := overdue_not_waiting hinv hd
+  rw [hqa] at hw
+  have hcount := hperm.count_eq e
+  unfold total at hcount
+  rw [List.count_append, List.count_append, hqa] at hcount
+  have h1 := List.count_eq_zero_of_not_mem hw.1
+  have h2 := List.count_eq_zero_of_not_mem hw.2
+  omega
+
+/-- a loop that has ended (after `schedule_stop`) has transmitted exactly the entries of all accepted calls: nothing
+    that was pending at the stop is lost, nothing is sent twice -/
+theorem stop_loses_nothing (c : Cfg) (hc : c.busy ≤ c.idle) (hi : 0 < c.idle) (adds : List Add) (quitAt n : Nat)
+    (h : (run c n (start adds quitAt)).2 = true) :
+    ((run c n (start adds quitAt)).1.out.map (·.2)).Perm (future quitAt adds) := by
+  have hinv := run_inv hc n (start_inv hi adds quitAt)
+  obtain ⟨hq, hquit⟩ := run_done n (start adds quitAt) h
+  have hperm := (run_total (c := c) n (start adds quitAt)).trans (total_start adds quitAt)
+  have hqa := hinv.quitOk hquit
+  have hfut : future (run c n (start adds quitAt)).1.quitAt (run c n (start adds quitAt)).1.adds = [] := by
+    unfold future
+    have : (run c n (start adds quitAt)).1.adds.filter (fun a => decide (a.at_ < (run c n (start adds quitAt)).1.quitAt)) = [] := by
+      rw [List.filter_eq_nil_iff]
+      intro a ha
+      have := hinv.pending a ha
+      simp only [decide_eq_true_eq]; omega
+    rw [this]; rfl
+  have hqa' : (run c n (start adds quitAt)).1.quitAt = quitAt := by rw [run_quitAt]; rfl
+  unfold total at hperm
+  rw [hq, hfut] at hperm
+  simpa using hperm
+
+/-- each accepted call contributes `1 + repeat` entries -/
+theorem entries_per_message (a : Add) : (entriesOf a).length = 1 + a.p.repeats := entriesOf_length a
+
+/-- every sender of `WSDiscovery` hands its message to the networking thread with the parameter set of its destination
+    (multicast address -> multicast set, otherwise unicast); regenerated by calling every `_send_*` of the real class -/
+theorem generated_senders_params :
+    ∀ s ∈ Generated.senders, s.2.2 = (if s.2.1 then Generated.multicast else Generated.unicast) := by decide
+
+example : Generated.senders.length = 6 := by decide
 
 end Sdc.C15
